@@ -332,7 +332,7 @@ static int topofile_ok, difffile_ok;
 static unsigned long st_reg, st_reg_err, st_reg_toocomplex, st_reg_with_T, st_reg_with_A, st_reg_users0, st_reg_pool_inited,
   st_reg_pool_configured, st_reg_pool_loaded, st_reg_pool_adopted, st_reg_pool_failed, st_reglive, st_reg_noslot,
   st_reg_init, st_reg_destroy, st_reg_dup, st_reg_setsrc, st_reg_load, st_reg_export, st_reg_diffbuild, st_reg_diffexp,
-  st_reg_diffload, st_reg_shmem, st_reg_adopt_ok;
+  st_reg_diffload, st_reg_shmem, st_reg_adopt_ok, st_reg_load_reconf, st_reg_free_users0;
 
 static unsigned cinit_out;     /* hwloc_components_init calls of `cinit` lines not yet undone by `cfini` */
 static unsigned pool_live(void) { unsigned n = 0; for (int i = 0; i < NSLOT; i++) if (P[i].st != S_EMPTY) n++; return n; }
@@ -372,8 +372,8 @@ static hwloc_topology_t any_live(void) {
 }
 static void free_xbuf(int b) {
   if (!X[b].kind) return;
-  if (hwloc_components_users) hwloc_free_xmlbuffer(any_live(), X[b].buf);
-  else free(X[b].buf);     /* hwloc_free_xmlbuffer asserts that some topology holds the registry (see the report) */
+  hwloc_free_xmlbuffer(any_live(), X[b].buf);   /* also with no topology alive (aborted before fix F76) */
+  if (!hwloc_components_users) st_reg_free_users0++;
   X[b].buf = NULL; X[b].kind = 0;
 }
 /* hand-built diff lists: A = an OBJ_ATTR entry, C = a TOO_COMPLEX entry */
@@ -442,10 +442,9 @@ static int reg_exec(const char *op, const char *var, const char *sa, const char 
     else if (!strcmp(var, "xmlbuf-loadfail")) { rc = hwloc_topology_set_xmlbuffer(t, BAD_TOPO_XML, (int) sizeof BAD_TOPO_XML); ok = 1; wf = 1; }
     else return 0;
     strcpy(res, okfail(rc));
-    /* PARKED (genuine hwloc defect outside C17, see the report): a second successful set_synthetic / set_xml / set_xmlbuffer on the
-     * same topology instantiates its backend with phases = component phases & ~excluded phases of the FIRST backend (= 0 after an
-     * XML / synthetic one), so a later hwloc_topology_load aborts on assert(global_backend->phases == HWLOC_DISC_PHASE_GLOBAL)
-     * (topology.c, hwloc_discover).  Reconfiguring is exercised, loading a reconfigured topology is not: it may only be destroyed. */
+    /* a second successful set_synthetic / set_xml / set_xmlbuffer on the same topology replaces the first source; loading such a
+     * reconfigured topology aborted until fix 5fda0cf (F75: the new backend kept phases = 0), it is exercised like any other load;
+     * `reconf` only counts them */
     if (ok && !rc) { if (P[a].st == S_CONF) P[a].reconf = 1; P[a].st = S_CONF; P[a].willfail = wf; }
     if (!ok) st_reg_err++;
     st_reg_setsrc++;
@@ -457,7 +456,7 @@ static int reg_exec(const char *op, const char *var, const char *sa, const char 
     else return 0;
     strcpy(res, okfail(rc)); st_reg_setsrc++;
   } else if (!strcmp(op, "load")) {
-    NEED(a >= 0 && !P[a].reconf);
+    NEED(a >= 0);
     if (!strcmp(var, "ok")) { NEED(PS(a) == S_CONF && !P[a].willfail); }
     else if (!strcmp(var, "native")) { NEED(PS(a) == S_INIT); }
     else if (!strcmp(var, "fail")) { NEED(PS(a) == S_CONF && P[a].willfail); st_reg_err++; }
@@ -781,7 +780,7 @@ static int gen_reg_op(char *out) {
     op = "load";
     if (rng_chance(15)) { if ((a = pick_slot(S_LOADED, S_ADOPTED)) < 0) return 0; var = "busy"; }
     else if (rng_chance(4)) { if ((a = pick_slot(S_INIT, S_INIT)) < 0) return 0; var = "native"; }
-    else { if ((a = pick_slot(S_CONF, S_CONF)) < 0 || P[a].reconf) return 0; var = P[a].willfail ? "fail" : "ok"; }
+    else { if ((a = pick_slot(S_CONF, S_CONF)) < 0) return 0; var = P[a].willfail ? "fail" : "ok"; if (P[a].reconf) st_reg_load_reconf++; }
     SA(a);
   } else if (w < 37) {
     op = "dup"; if ((b = pick_slot(S_EMPTY, S_EMPTY)) < 0) return 0; SB(b);
@@ -957,7 +956,7 @@ int main(int argc, char **argv) {
     S(arena_ref); S(arena_unref); S(arena_partial); S(cinit); S(dists); S(attrs_user); S(restrict); S(mismatch); S(loadbind); S(loadflags);
     S(reg); S(reg_err); S(reg_toocomplex); S(reg_with_T); S(reg_with_A); S(reg_users0); S(reg_pool_inited); S(reg_pool_configured);
     S(reg_pool_loaded); S(reg_pool_adopted); S(reg_pool_failed); S(reglive); S(reg_noslot); S(reg_init); S(reg_destroy); S(reg_dup);
-    S(reg_setsrc); S(reg_load); S(reg_export); S(reg_diffbuild); S(reg_diffexp); S(reg_diffload); S(reg_shmem); S(reg_adopt_ok);
+    S(reg_setsrc); S(reg_load); S(reg_export); S(reg_diffbuild); S(reg_diffexp); S(reg_diffload); S(reg_shmem); S(reg_adopt_ok); S(reg_load_reconf); S(reg_free_users0);
     fclose(f);
   }
   return 0;
